@@ -207,6 +207,20 @@ func cases(tier string, want func(docIdx int64) bool, f func(idx int64, doc, mod
 			emit(func() string { return enum.Spell(d, n, enum.Spelling{Unit: "  ", Bullets: []byte("-")}) })
 		}
 	}
+	// lines around the scanner's token limit (64 KiB) and far beyond it
+	for _, ln := range []int{4095, 4096, 65500, 65535, 65536, 65537, 100000, 262143, 262145, 300000} {
+		for _, pre := range []string{"- ", "  - ", "# "} {
+			emitN(8, func() string {
+				lines := []string{"- a", "  - b", "- c"}
+				if pre == "  - " {
+					lines[1] = pre + strings.Repeat("x", ln)
+				} else {
+					lines[2] = pre + strings.Repeat("x", ln)
+				}
+				return strings.Join(lines, "\n") + "\n"
+			})
+		}
+	}
 	for n := 1; n <= maxN && ok; n++ {
 		enum.DepthSeqs(n, func(d []int) {
 			enum.Tuples(n, 2, func(t []int) {
